@@ -202,6 +202,10 @@ func checkModified(s *RunSpec, w *world, res [][]opResult, worldName string, out
 				out = append(out, mkViol(s, w, "O2", "a/b: operation modified its packet or input buffer", worldName, t, i, r.pre, r.post,
 					"physical snapshot of the operation's input differs after the call (addresses, capacities and spare capacity included)"))
 			}
+			if r.incons {
+				out = append(out, mkViol(s, w, "O4", "c: repeated calls return identical results regardless of what was called before", worldName, t, i, r.pre, r.post,
+					"the same octets decoded from a fresh buffer (expected) and from a receive buffer that is refilled in place (actual)"))
+			}
 		}
 	}
 	return out
